@@ -27,7 +27,7 @@ RULE = (
     "other compiles; non-trivial = pattern with >= 1 field spec; distinct = distinct (pattern text, node fingerprint)"
 )
 ASSUMPTIONS = ["sequence patterns applied to str-valued fields and field names that are properties/methods are not generated (don't-care)"]
-MUST_SEE = ["variable_refers_to_captured_sequence", "nodes_with_non_field_attributes", "empty_sequence_spec", "pattern_after_class_redefinition", "empty_rule_selection", "regex_inner_whitespace", "rules_given_as_iter", "rules_given_as_gen", "regex_on_hash_equal_values", 
+MUST_SEE = ["subclass_defined_after_pattern_was_compiled", "variable_on_nodes_differing_in_noncompare_property", "variable_refers_to_captured_sequence", "nodes_with_non_field_attributes", "empty_sequence_spec", "pattern_after_class_redefinition", "empty_rule_selection", "regex_inner_whitespace", "rules_given_as_iter", "rules_given_as_gen", "regex_on_hash_equal_values", 
     "tail_vs_too_short", "capture_on_seq_with_tail", "two_any_captures", "var_node_other_origin", "second_alternative_subclass",
     "matches", "mismatches", "reasked", "multi_questions", "regex_middle_only", "tail_capture", "empty_seq_vs_nonempty", "reasked_after_rejected",
 ]
@@ -348,6 +348,39 @@ def run_shard(ctx):
             if ok_new is not True or ok_old is not False:
                 ctx.violation("verdict", "a pattern compiled after its class was defined again does not denote the class now bearing the name", {"pattern": text, "generation": gen_no, "matches_instance_of_current_class": ok_new, "matches_instance_of_previous_class": ok_old})
         prev = node
+
+    # ---- a subclass defined after a pattern naming its base class was compiled: its instances are instances of the base ----
+    # ---- and: $name on nodes means content equality - properties declared compare=False are not content ----
+    pre = {}
+    for text in (f"({P}Leaf)", f"({P}Un @child=({P}Leaf) -> c)", f"({P}List @items=[({P}Leaf) -> first *])", f"({P}Name|{P}Leaf @v -> v)"):
+        pre[text] = NodeMatcher.from_pattern(text)[0]
+    mp_pre = MultiPatternMatcher([("base", f"({P}Leaf)"), ("any", "(*)")])
+    src = f"@dataclass(frozen=True)\nclass {P}Late8({P}Leaf):\n    extra: str = ''\n"
+    exec(compile(src, "<c08 late>", "exec", dont_inherit=True), U.module.__dict__)
+    late = U.module.__dict__[f"{P}Late8"](v=5, extra="x")
+    subjects = {f"({P}Leaf)": late, f"({P}Un @child=({P}Leaf) -> c)": U.cls[f"{P}Un"](child=late), f"({P}List @items=[({P}Leaf) -> first *])": U.cls[f"{P}List"](items=(late,)), f"({P}Name|{P}Leaf @v -> v)": late}
+    for text, m in pre.items():
+        for how, mm in (("compiled before the subclass existed", m), ("compiled again", NodeMatcher.from_pattern(text)[0])):
+            ctx.evaluations += 1
+            ctx.count("subclass_defined_after_pattern_was_compiled")
+            ok = mm is not None and mm.match(subjects[text])[0]
+            if ok is not True:
+                ctx.violation("verdict", f"an instance of a subclass defined after the pattern was compiled is not matched by the pattern naming its base class ({how})", {"pattern": text})
+    got_rule = mp_pre.match(late)
+    if not got_rule or got_rule[0] != "base":
+        ctx.violation("multi", "MultiPatternMatcher compiled before a subclass existed skips the rule naming the base class for an instance of the subclass", {"got": repr(got_rule)[:100]})
+    Cnt, Bin = U.cls[f"{P}Count"], U.cls[f"{P}Bin"]
+    for da, db, exp in (("one", "two", True), ("same", "same", True)):
+        a_, b_ = Cnt(items=(U.cls[f"{P}Leaf"](v=1),), doc=da), Cnt(items=(U.cls[f"{P}Leaf"](v=1),), doc=db, origin=O.build_origin(("gen", 1)))
+        holder = Bin(left=a_, right=b_)
+        for text in (f"({P}Bin @left -> l @right=$l)", f"({P}Bin @left=({P}Count) -> l @right=$l)"):
+            m, _msg = NodeMatcher.from_pattern(text)
+            ctx.evaluations += 1
+            ctx.count("variable_on_nodes_differing_in_noncompare_property")
+            got = m is not None and m.match(holder)[0]
+            if got is not exp:
+                ctx.violation("verdict", "$name on nodes is content equality: two content-equal nodes that differ in a compare=False property (and in origin) satisfy it", {"pattern": text, "docs": (da, db), "got": got})
+        holder.detach()
 
     # ---- [] denotes the empty tuple only (not an empty string, not None, not a non-empty tuple) ----
     Mixc = U.cls[f"{P}Mix"]
